@@ -95,7 +95,24 @@ func (d devRec) wire() *backendpb.DeviceSettings {
 		ds.DedicatedIps = append(ds.DedicatedIps, ipBytes(dedAddr(ip)))
 	}
 	if d.bad {
-		ds.DedicatedIps = append(ds.DedicatedIps, ipBytes(outsideBind))
+		// Every reason the converter has to refuse a device.
+		switch d.tag % 7 {
+		case 0:
+			ds.DedicatedIps = append(ds.DedicatedIps, ipBytes(outsideBind))
+		case 1:
+			// An empty byte string is the zero netip.Addr: in no bind prefix.
+			ds.DedicatedIps = append(ds.DedicatedIps, []byte{})
+		case 2:
+			ds.DedicatedIps = append(ds.DedicatedIps, []byte{198, 51, 100, 1, 0})
+		case 3:
+			ds.LinkedIp = []byte{192, 0, 2}
+		case 4:
+			ds.Name = strings.Repeat("n", 129)
+		case 5:
+			ds.HumanIdLower = "Upper-Case"
+		default:
+			ds.HumanIdLower = strings.Repeat("h", 64)
+		}
 	}
 	switch d.tag % 3 {
 	case 1:
@@ -132,6 +149,14 @@ func (p profRec) wire(devs map[int]*devRec) *backendpb.DNSProfile {
 
 	return out
 }
+
+// sparseBits chooses, per profile version, which OPTIONAL (message-typed)
+// parts of the wire profile are left out although their parent is present.
+func sparseBits(tag int) uint32 { return uint32(tag*31+17) * 2246822519 }
+
+// sparseDay: 0 = both bounds of the day range on the wire, 1 = start absent,
+// 2 = start and end absent.
+func sparseDay(tag, wd int) int { return int((sparseBits(tag) >> (2 + 2*uint(wd))) & 3) }
 
 // settingsBits spreads the tag of a profile version over 32 bits; every
 // setting group of the wire profile is chosen by some of them.
@@ -174,6 +199,13 @@ func (p profRec) wireSettings(out *backendpb.DNSProfile) {
 				}
 				rg := pipeDayRanges[(int(u>>20)+int(wd))&3]
 				dr := &backendpb.DayRange{Start: durationpb.New(time.Duration(rg[0]) * time.Minute), End: durationpb.New(time.Duration(rg[1]) * time.Minute)}
+				switch sparseDay(p.tag, int(wd)) {
+				case 1:
+					// proto3: an absent message-typed field is the zero duration.
+					dr.Start = nil
+				case 2:
+					dr.Start, dr.End = nil, nil
+				}
 				switch wd {
 				case time.Sunday:
 					w.Sun = dr
@@ -192,6 +224,14 @@ func (p profRec) wireSettings(out *backendpb.DNSProfile) {
 				}
 			}
 			par.Schedule = &backendpb.ScheduleSettings{Tmz: pipeTZ[(u>>12)&1], WeeklyRange: w}
+			if sparseBits(p.tag)&3 == 0 {
+				// A schedule without weekly_range (legal in proto3: a week
+				// with no day set).
+				par.Schedule.WeeklyRange = nil
+			}
+			if (sparseBits(p.tag)>>16)&3 == 0 {
+				par.Schedule.Tmz = ""
+			}
 		}
 		out.Parental = par
 	}
@@ -265,12 +305,22 @@ func (p profRec) expected() *agd.Profile {
 			}
 		}
 		if u&2048 != 0 {
-			loc, err := agdtime.LoadLocation(pipeTZ[(u>>12)&1])
+			tz := pipeTZ[(u>>12)&1]
+			if (sparseBits(p.tag)>>16)&3 == 0 {
+				tz = "UTC" // an empty name is UTC
+			}
+			loc, err := agdtime.LoadLocation(tz)
 			hlib.Must(err)
 			week := &filter.WeeklySchedule{}
-			for wd := 0; wd < 7; wd++ {
+			for wd := 0; wd < 7 && sparseBits(p.tag)&3 != 0; wd++ {
 				if (u>>(13+uint(wd)))&1 != 0 {
 					rg := pipeDayRanges[(int(u>>20)+wd)&3]
+					switch sparseDay(p.tag, wd) {
+					case 1:
+						rg[0] = 0
+					case 2:
+						rg = [2]int{0, 0}
+					}
 					week[wd] = &filter.DayInterval{Start: uint16(rg[0]), End: uint16(rg[1] + 1)}
 				}
 			}
@@ -417,11 +467,67 @@ func (r *recStorage) Profiles(
 // blocking mode without addresses), together with its perfectly valid device,
 // which claims keys of the pools.
 func junkProfile(n int) *backendpb.DNSProfile {
-	return &backendpb.DNSProfile{
-		DnsId:        "p9",
-		BlockingMode: &backendpb.DNSProfile_BlockingModeCustomIp{BlockingModeCustomIp: &backendpb.BlockingModeCustomIP{}},
-		Devices:      []*backendpb.DeviceSettings{junkDevice(n).wire()},
+	out := &backendpb.DNSProfile{
+		DnsId:   "p9",
+		Devices: []*backendpb.DeviceSettings{junkDevice(n).wire()},
 	}
+	mins := func(m int) *durationpb.Duration { return durationpb.New(time.Duration(m) * time.Minute) }
+	sched := func(tz string, d *backendpb.DayRange) {
+		out.Parental = &backendpb.ParentalSettings{Enabled: true, Schedule: &backendpb.ScheduleSettings{Tmz: tz, WeeklyRange: &backendpb.WeeklyRange{Wed: d}}}
+	}
+	// Every reason the converter has to refuse a profile (each is a separate
+	// error path; none may panic, none may let the profile or its device in).
+	switch junkKind(n) {
+	case 0:
+		out.BlockingMode = &backendpb.DNSProfile_BlockingModeCustomIp{BlockingModeCustomIp: &backendpb.BlockingModeCustomIP{}}
+	case 1:
+		out.BlockingMode = &backendpb.DNSProfile_BlockingModeCustomIp{BlockingModeCustomIp: &backendpb.BlockingModeCustomIP{Ipv4: []byte{1, 2, 3, 4, 5}}}
+	case 2:
+		out.BlockingMode = &backendpb.DNSProfile_BlockingModeCustomIp{BlockingModeCustomIp: &backendpb.BlockingModeCustomIP{Ipv4: ipBytes(pipeIP4), Ipv6: []byte{1}}}
+	case 3:
+		sched("Nowhere/Land", nil)
+	case 4:
+		// No weekly_range either: the unknown zone is what is refused.
+		out.Parental = &backendpb.ParentalSettings{Schedule: &backendpb.ScheduleSettings{Tmz: "Nowhere/Land"}}
+	case 5:
+		sched("UTC", &backendpb.DayRange{Start: mins(600), End: mins(60)})
+	case 6:
+		sched("UTC", &backendpb.DayRange{Start: mins(1440), End: mins(1440)})
+	case 7:
+		sched("UTC", &backendpb.DayRange{Start: mins(0), End: mins(1440)})
+	case 8:
+		// An absent end is minute 0: before the start.
+		sched("UTC", &backendpb.DayRange{Start: mins(60)})
+	default:
+		out.DnsId = "p99999999"
+	}
+
+	return out
+}
+
+const junkKinds = 10
+
+func junkKind(n int) int { return (n - 1) % junkKinds }
+
+// junkSchedLine is the model line of the junk profile's schedule ("" if the
+// profile is refused for another reason): the model must refuse it as well.
+func junkSchedLine(n int) string {
+	switch junkKind(n) {
+	case 3:
+		return "bpsched x 1 - - - - - - -"
+	case 4:
+		return "bpsched x 0"
+	case 5:
+		return "bpsched 0 1 - - - 600:60 - - -"
+	case 6:
+		return "bpsched 0 1 - - - 1440:1440 - - -"
+	case 7:
+		return "bpsched 0 1 - - - 0:1440 - - -"
+	case 8:
+		return "bpsched 0 1 - - - 60:- - - -"
+	}
+
+	return ""
 }
 
 func junkDevice(n int) devRec {
@@ -669,6 +775,19 @@ func (h *harness) runPipelineCase(rng *rand.Rand, srv *pipeServer, ps *backendpb
 				}
 				mlines = append(mlines, fmt.Sprintf("bprate %d", min((u>>27)&3, 2)), fmt.Sprintf("bpaccess %d", min((u>>25)&3, 2)))
 				mwant = append(mwant, rlT+" "+rlT, acT)
+				// The pause schedule the look-up delivers (through backendpb
+				// and, after a restart, the cache) against the model's
+				// conversion of the wire schedule with its absent parts.
+				mlines = append(mlines, p.schedLine())
+				if line := p.schedLine(); strings.HasSuffix(line, " 0") && line != "bpsched none 0" {
+					r.Count("pipeline:schedule-without-weekly_range-delivered")
+				} else if strings.Contains(line, "-:") {
+					r.Count("pipeline:schedule-day-with-absent-bound-delivered")
+				}
+				if afterRestart {
+					r.Count("pipeline:schedule-compared-after-restart")
+				}
+				mwant = append(mwant, schedText(res.p))
 				if res.d.Auth != nil && (d.tag%3 != 2 || byte(d.tag) != 0) {
 					pw := 0
 					if d.tag%3 == 2 {
@@ -730,24 +849,48 @@ func (h *harness) runPipelineCase(rng *rand.Rand, srv *pipeServer, ps *backendpb
 				r.Count("pipeline:sync-failed-in-the-middle-of-the-stream")
 			}
 			if rng.IntN(4) == 0 {
-				srv.junk = 1 + rng.IntN(6)
+				srv.junk = 1 + rng.IntN(3*junkKinds)
 			}
 			if !auto {
 				x.db.VerifC14ForceSyncKind(full)
 			}
 			nostore := !failing && rng.IntN(6) == 0
 			var err error
-			if nostore {
-				withoutCacheDir(path, func() { err = x.db.Refresh(ctx) })
-			} else {
+			var panicked any
+			refresh := func() {
+				defer func() { panicked = recover() }()
 				err = x.db.Refresh(ctx)
 			}
+			if nostore {
+				withoutCacheDir(path, refresh)
+			} else {
+				refresh()
+			}
 			srv.fail = false
+			if panicked != nil {
+				// In production this ends the refresh worker's loop for good
+				// (agdservice.RefreshWorker recovers once, outside the loop)
+				// or, during the initial refresh, the process.
+				if srv.served != nil {
+					log = append(log, fmt.Sprintf("%s (asked since %d)", srv.served.line(), srv.lastSince))
+					log = append(log, "wire: "+sparseText(pb, srv.served))
+				}
+				log = append(log, fmt.Sprintf("Refresh PANICS: %v", panicked))
+				violate("refresh-panics", fmt.Sprintf("Refresh panicked on a well-formed answer of the backend: %v (the refresh worker stops synchronising for good; an initial refresh ends the process)", panicked))
+				r.Case("pipeline\n"+fmt.Sprint(log), false)
+
+				return
+			}
 			kind := mt.lastFull
 			if srv.served != nil && rec.last != nil && !failing {
 				mlines = append(mlines, wireLine(srv.served, srv.junk))
 				mwant = append(mwant, respText(rec.last))
 				if srv.junk > 0 {
+					r.Count(fmt.Sprintf("pipeline:rejected-profile-in-stream:kind%d", junkKind(srv.junk)))
+					if line := junkSchedLine(srv.junk); line != "" {
+						mlines = append(mlines, line)
+						mwant = append(mwant, "reject")
+					}
 					r.Count("pipeline:rejected-profile-in-stream")
 				}
 			}
@@ -833,6 +976,193 @@ func (h *harness) runPipelineCase(rng *rand.Rand, srv *pipeServer, ps *backendpb
 	if len(log) > 0 {
 		r.Sample(map[string]any{"campaign": "pipeline", "log": log[:min(len(log), 6)]}, 7)
 	}
+}
+
+// sparseText names the optional parts left out of the profiles of a response.
+func sparseText(pb *pbackend, rs *resp) string {
+	var sb strings.Builder
+	for _, p := range rs.profs {
+		u, v := settingsBits(p.tag), sparseBits(p.tag)
+		fmt.Fprintf(&sb, "p%d(tag %d):", p.id, p.tag)
+		if u&16 != 0 && u&2048 != 0 {
+			if v&3 == 0 {
+				sb.WriteString(" schedule-without-weekly_range")
+			}
+			if (v>>16)&3 == 0 {
+				sb.WriteString(" schedule-without-tmz")
+			}
+		}
+		sb.WriteString("; ")
+	}
+
+	return sb.String()
+}
+
+// schedLine is the wire schedule of the profile version as a model line.
+func (p profRec) schedLine() string {
+	u, v := settingsBits(p.tag), sparseBits(p.tag)
+	if u&16 == 0 || u&2048 == 0 {
+		return "bpsched none 0"
+	}
+	// Zone numbers of the model: the index in pipeTZ; an empty name is UTC.
+	tz := int((u >> 12) & 1)
+	if (v>>16)&3 == 0 {
+		tz = 0
+	}
+	if v&3 == 0 {
+		return fmt.Sprintf("bpsched %d 0", tz)
+	}
+	days := make([]string, 7)
+	for wd := 0; wd < 7; wd++ {
+		if (u>>(13+uint(wd)))&1 == 0 {
+			days[wd] = "-"
+
+			continue
+		}
+		rg := pipeDayRanges[(int(u>>20)+wd)&3]
+		switch sparseDay(p.tag, wd) {
+		case 1:
+			days[wd] = fmt.Sprintf("-:%d", rg[1])
+		case 2:
+			days[wd] = "-:-"
+		default:
+			days[wd] = fmt.Sprintf("%d:%d", rg[0], rg[1])
+		}
+	}
+
+	return fmt.Sprintf("bpsched %d 1 %s", tz, strings.Join(days, " "))
+}
+
+// schedText renders the pause schedule of a real profile as the model does.
+func schedText(p *agd.Profile) string {
+	c := p.FilterConfig.Parental.PauseSchedule
+	if c == nil {
+		return "nosched"
+	}
+	tz := -1
+	for i, name := range pipeTZ {
+		if c.TimeZone != nil && c.TimeZone.String() == name {
+			tz = i
+		}
+	}
+	days := make([]string, 7)
+	for wd, d := range c.Week {
+		if d == nil {
+			days[wd] = "-"
+		} else {
+			days[wd] = fmt.Sprintf("%d-%d", d.Start, d.End)
+		}
+	}
+
+	return fmt.Sprintf("tz=%d %s", tz, strings.Join(days, " "))
+}
+
+// scheduleConvCampaign: the unchanged (*ScheduleSettings).toInternal on every
+// combination of a small scope of wire schedules — weekly_range absent /
+// present, the probed day absent, its bounds absent, at and beyond every limit
+// of a day, sub-minute values, every zone name kind — against (1) what the
+// wire format's documentation says for values inside a day and (2) the Lean
+// converter model for all of them.  A panic is a violation.
+func (h *harness) scheduleConvCampaign() {
+	r := h.r
+	const absent = -1
+	// Seconds; -1 = the bound is not on the wire.
+	starts := []int{absent, 0, 60, 90, 3600, 1439 * 60, 1440 * 60, 65535 * 60, 65536 * 60, 65596 * 60}
+	ends := []int{absent, 0, 59 * 60, 60 * 60, 61*60 + 30, 1438 * 60, 1439 * 60, 1440 * 60, 65535 * 60, 65595 * 60}
+	zones := []string{"UTC", "", "Europe/Brussels", "Nowhere/Land"}
+	dur := func(sec int) *durationpb.Duration {
+		if sec == absent {
+			return nil
+		}
+
+		return durationpb.New(time.Duration(sec) * time.Second)
+	}
+	tok := func(sec int) string {
+		if sec == absent {
+			return "-"
+		}
+
+		return strconv.Itoa(sec / 60)
+	}
+	var mlines, mwant []string
+	n := 0
+	check := func(x *backendpb.ScheduleSettings, line, what string, doc string) {
+		var c *filter.ConfigSchedule
+		var err error
+		pv := guardPanic(func() { c, err = backendpb.VerifC14ScheduleToInternal(x) })
+		n++
+		r.Evaluations++
+		got := "reject"
+		switch {
+		case pv != nil:
+			got = "panic"
+			r.Violate("schedconv:converter-panics", fmt.Sprintf("(*ScheduleSettings).toInternal panicked on %s: %v", what, pv),
+				map[string]any{"campaign": "schedconv", "wire": what, "how": "backendpb.VerifC14ScheduleToInternal on the wire message described"})
+		case err == nil && c == nil:
+			got = "nosched"
+		case err == nil:
+			got = schedText(&agd.Profile{FilterConfig: &filter.ConfigClient{Parental: &filter.ConfigParental{PauseSchedule: c}}})
+		}
+		if doc != "" && got != doc && pv == nil {
+			r.Violate("schedconv:documented-schedule-not-delivered", fmt.Sprintf("%s: the wire format says %q, the converter made %q of it", what, doc, got),
+				map[string]any{"campaign": "schedconv", "wire": what})
+		}
+		mlines = append(mlines, line)
+		mwant = append(mwant, got)
+	}
+	check(nil, "bpsched none 0", "no schedule", "nosched")
+	for zi, tz := range zones {
+		ztok, zdoc := strconv.Itoa(zi/2), zi/2 // UTC, "" -> 0; Brussels -> 1
+		if tz == "Nowhere/Land" {
+			ztok = "x"
+		}
+		check(&backendpb.ScheduleSettings{Tmz: tz}, "bpsched "+ztok+" 0", fmt.Sprintf("schedule{tmz: %q} without weekly_range", tz),
+			map[bool]string{true: "reject", false: fmt.Sprintf("tz=%d - - - - - - -", zdoc)}[ztok == "x"])
+		for si, st := range starts {
+			for ei, en := range ends {
+				wd := (si + ei) % 7
+				days := [7]*backendpb.DayRange{}
+				toks := [7]string{"-", "-", "-", "-", "-", "-", "-"}
+				docDays := toks
+				days[wd] = &backendpb.DayRange{Start: dur(st), End: dur(en)}
+				toks[wd] = tok(st) + ":" + tok(en)
+				other := (wd + 3) % 7
+				if (si+2*ei)%3 == 0 {
+					days[other] = &backendpb.DayRange{Start: dur(60 * 60), End: dur(600 * 60)}
+					toks[other], docDays[other] = "60:600", "60-601"
+				}
+				// The documentation: bounds are minutes of the day, the end
+				// is inclusive, an absent duration is zero.
+				sm, em := max(st, 0)/60, max(en, 0)/60
+				doc := ""
+				switch {
+				case ztok == "x":
+					doc = "reject"
+				case sm <= 1439 && em <= 1439 && sm <= em+1:
+					// (an inclusive end one minute before the start is the empty range)
+					docDays[wd] = fmt.Sprintf("%d-%d", sm, em+1)
+					doc = fmt.Sprintf("tz=%d %s", zdoc, strings.Join(docDays[:], " "))
+				case sm <= 1440 && em <= 1440:
+					// Inside the wire type's natural range, not a day range.
+					doc = "reject"
+				}
+				w := &backendpb.WeeklyRange{Sun: days[0], Mon: days[1], Tue: days[2], Wed: days[3], Thu: days[4], Fri: days[5], Sat: days[6]}
+				check(&backendpb.ScheduleSettings{Tmz: tz, WeeklyRange: w}, "bpsched "+ztok+" 1 "+strings.Join(toks[:], " "),
+					fmt.Sprintf("schedule{tmz: %q, weekly_range: {%s: {start: %s min, end: %s min}%s}}", tz, time.Weekday(wd), tok(st), tok(en),
+						map[bool]string{true: ", " + time.Weekday(other).String() + ": 60..600", false: ""}[days[other] != nil]), doc)
+			}
+		}
+	}
+	ans := h.m.Batch(mlines)
+	r.ModelOps += len(mlines)
+	for k := range mlines {
+		if ans[k] != mwant[k] {
+			r.Disagree("model-vs-backendpb-schedule", fmt.Sprintf("%q: model %q, implementation %q", mlines[k], ans[k], mwant[k]), map[string]any{"campaign": "schedconv", "line": mlines[k]})
+
+			break
+		}
+	}
+	r.Count(fmt.Sprintf("schedconv:cases=%d", n))
 }
 
 var _ agd.DeviceID
